@@ -900,7 +900,9 @@ pub fn run(args: &Args) {
 		// MONITOR delay_time_error: L/sr in (T - 1/sr, T], or one frame when T*sr < 1
 		for (l, r) in obs.iter().zip(&rates) {
 			let x = t_ns as f64 * *r as f64 / 1e9;
-			let ok = if x >= 1.0 { (*l as f64) <= x + 1e-9 && (*l as f64) > x - 1.0 - 1e-9 } else { *l == 1 };
+			// exact: L = max(1, floor(T * sr)) in integer arithmetic (F35: the binary64 product came out one frame short)
+			let exact = ((t_ns as u128 * *r as u128 / 1_000_000_000) as i128).max(1);
+			let ok = *l == exact;
 			if !ok {
 				s.fail(format!("Delay {t_ns} ns at {r} Hz (rates {rates:?})"), format!("echo after {l} frames, T*sr = {x}"), None);
 			}
